@@ -49,6 +49,15 @@ theorem pubOrigins_merged (vs : List View) (hv : ∀ v ∈ vs, v.PubOrigins) : (
   obtain ⟨v, hm, hg⟩ := List.exists_of_findSome?_eq_some h
   exact hv v (by simpa using hm) _ _ hg
 
+theorem pubOrigins_limitBy (vis : Vis) (k : Kind) (v : View) (hv : v.PubOrigins) : (limitBy vis k v).PubOrigins := by
+  unfold limitBy
+  split
+  · exact pubOrigins_safelist _ _ hv
+  · split
+    · exact hv
+    · exact pubOrigins_blocklist _ _ hv
+  · exact hv
+
 theorem pubOrigins_forwardedMap (sw : Switches) (k : Kind) (r : FwdRule) (v : View) (hv : v.PubOrigins) :
     (forwardedMap sw k r v).PubOrigins := by
   unfold forwardedMap
@@ -61,12 +70,7 @@ theorem pubOrigins_forwardedMap (sw : Switches) (k : Kind) (r : FwdRule) (v : Vi
   simp only
   split
   · exact h1
-  · split
-    · exact pubOrigins_safelist _ _ h1
-    · split
-      · exact h1
-      · exact pubOrigins_blocklist _ _ h1
-    · exact h1
+  · exact pubOrigins_limitBy _ _ _ h1
 
 theorem pubOrigins_memberMap (id : Nat) (own : List Ident) (others : List View)
     (ho : ∀ v ∈ others, v.PubOrigins) : (memberMap (View.base id own) others).PubOrigins := by
@@ -103,5 +107,273 @@ def View.KeysComplete (v : View) : Prop := ∀ n, (v.get n).isSome = true → n 
 def View.KeysSound (v : View) : Prop := ∀ n, n ∈ v.keys → (v.get n).isSome = true
 /-- `is_empty()` is truthful -/
 def View.EmptyOK (v : View) : Prop := v.nonempty = false → ∀ n, v.get n = none
+
+
+structure View.Good (v : View) : Prop where
+  complete : v.KeysComplete
+  emptyOK : v.EmptyOK
+
+theorem isPrefixOf_append_drop (p n : Ident) (h : p.isPrefixOf n = true) : p ++ n.drop p.length = n := by
+  rw [List.isPrefixOf_iff_prefix] at h
+  exact List.prefix_iff_eq_append.mp h
+
+theorem good_empty : View.empty.Good := ⟨by intro n h; simp [View.empty] at h, by intro _ n; rfl⟩
+
+theorem good_base (id : Nat) (own : List Ident) : (View.base id own).Good := by
+  refine ⟨?_, ?_⟩
+  · intro n h
+    simp only [View.base] at h ⊢
+    split at h
+    · simp_all
+    · simp at h
+  · intro h n
+    simp only [View.base] at h ⊢
+    have : own = [] := by simpa using h
+    subst this; simp
+
+theorem good_pub (v : View) (hv : v.Good) : (View.pub v).Good := by
+  refine ⟨?_, ?_⟩
+  · intro n h
+    simp only [View.pub] at h ⊢
+    split at h
+    · simp at h
+    · rename_i hp
+      simp only [List.mem_filter]
+      exact ⟨hv.complete n h, by simpa using hp⟩
+  · intro h n
+    simp only [View.pub] at h ⊢
+    split
+    · rfl
+    · exact hv.emptyOK h n
+
+theorem good_prefixed (v : View) (p : Ident) (hv : v.Good) : (View.prefixed false v p).Good := by
+  refine ⟨?_, ?_⟩
+  · intro n h
+    simp only [View.prefixed] at h ⊢
+    split at h
+    · rename_i hp
+      simp only [Bool.false_eq_true, if_false, List.mem_map]
+      exact ⟨n.drop p.length, hv.complete _ h, isPrefixOf_append_drop p n hp⟩
+    · simp at h
+  · intro h n
+    simp only [View.prefixed] at h ⊢
+    split
+    · exact hv.emptyOK h _
+    · rfl
+
+theorem good_safelist (v : View) (s : List Ident) : (View.safelist v s).Good := by
+  refine ⟨?_, ?_⟩
+  · intro n h
+    simp only [View.safelist] at h ⊢
+    split at h
+    · rename_i hc; simpa using hc
+    · simp at h
+  · intro h n
+    simp only [View.safelist] at h ⊢
+    have : List.filter (fun k => (v.get k).isSome) s = [] := by simpa using h
+    rw [this]; simp
+
+theorem good_blocklist (v : View) (s : List Ident) : (View.blocklist v s).Good := by
+  refine ⟨?_, ?_⟩
+  · intro n h
+    simp only [View.blocklist] at h ⊢
+    split at h
+    · rename_i hc; simpa using hc
+    · simp at h
+  · intro h n
+    simp only [View.blocklist] at h ⊢
+    have : List.filter (fun k => !s.contains k) v.keys = [] := by simpa using h
+    rw [this]; simp
+
+theorem good_merged (vs : List View) (hv : ∀ v ∈ vs, v.Good) : (View.merged vs).Good := by
+  have hc : (View.merged vs).KeysComplete := by
+    intro n h
+    simp only [View.merged] at h ⊢
+    rw [List.mem_eraseDups, List.mem_flatMap]
+    cases hf : List.findSome? (fun v => v.get n) vs.reverse with
+    | none => simp [hf] at h
+    | some o =>
+      obtain ⟨v, hm, hg⟩ := List.exists_of_findSome?_eq_some hf
+      exact ⟨v, by simpa using hm, (hv v (by simpa using hm)).complete n (by simp [hg])⟩
+  refine ⟨hc, ?_⟩
+  intro h n
+  cases hg : (View.merged vs).get n with
+  | none => rfl
+  | some o =>
+    have := hc n (by simp [hg])
+    simp only [View.merged] at h this
+    have hnil : (List.flatMap (fun x => x.keys) vs).eraseDups = [] := by simpa using h
+    rw [hnil] at this
+    simp at this
+
+theorem good_limitBy (vis : Vis) (k : Kind) (v : View) (hv : v.Good) : (limitBy vis k v).Good := by
+  unfold limitBy
+  split
+  · exact good_safelist _ _
+  · split
+    · exact hv
+    · exact good_blocklist _ _
+  · exact hv
+
+theorem good_forwardedMap (sw : Switches) (hb : sw.prefixedKeysBug = false) (k : Kind) (r : FwdRule)
+    (v : View) (hv : v.Good) : (forwardedMap sw k r v).Good := by
+  unfold forwardedMap
+  have h1 : (match r.pfx with
+      | some p => View.prefixed sw.prefixedKeysBug v p
+      | none => v).Good := by
+    split
+    · rw [hb]; exact good_prefixed _ _ hv
+    · exact hv
+  simp only
+  split
+  · exact h1
+  · exact good_limitBy _ _ _ h1
+
+theorem good_memberMap (id : Nat) (own : List Ident) (others : List View)
+    (ho : ∀ v ∈ others, v.Good) : (memberMap (View.base id own) others).Good := by
+  unfold memberMap
+  simp only
+  split
+  · exact good_pub _ (good_base id own)
+  · apply good_merged
+    intro v hv
+    simp only [List.mem_append, List.mem_filter, List.mem_singleton] at hv
+    rcases hv with ⟨hv, _⟩ | hv
+    · exact ho v hv
+    · subst hv; exact good_pub _ (good_base id own)
+
+theorem good_scopeView (sw : Switches) (hb : sw.prefixedKeysBug = false) (k : Kind) :
+    ∀ (ms : List Mod) (id : Nat), (scopeView sw k ms id).Good := by
+  intro ms
+  induction ms with
+  | nil => intro id; simpa [scopeView] using good_empty
+  | cons m rest ih =>
+    intro id
+    unfold scopeView
+    split
+    · apply good_memberMap
+      intro v hv
+      simp only [List.mem_map] at hv
+      obtain ⟨f, _, rfl⟩ := hv
+      exact good_forwardedMap sw hb _ _ _ (ih f.target)
+    · exact ih id
+
+/-! ### the forward view equals `prefix ∘ filter(show/hide)` of the upstream view -/
+
+theorem safelist_get (v1 : View) (s : List Ident) (n : Ident) :
+    (View.safelist v1 s).get n = if s.contains n then v1.get n else none := by
+  simp only [View.safelist]
+  by_cases hm : n ∈ s
+  · cases hg : v1.get n with
+    | none => simp
+    | some o => simp [hm, hg]
+  · simp [hm]
+
+theorem blocklist_get (v1 : View) (h1g : v1.Good) (b : List Ident) (n : Ident) :
+    (View.blocklist v1 b).get n = if !b.contains n then v1.get n else none := by
+  simp only [View.blocklist]
+  by_cases hm : n ∈ b
+  · simp [hm]
+  · cases hg : v1.get n with
+    | none => simp
+    | some o =>
+      have hk := h1g.complete n (by simp [hg])
+      simp [hm, hk]
+
+theorem limitBy_get (vis : Vis) (k : Kind) (v1 : View) (h1g : v1.Good) (n : Ident) :
+    (limitBy vis k v1).get n = if visAllows vis k n then v1.get n else none := by
+  unfold limitBy visAllows
+  cases hs : vis.safe k with
+  | some s => simp only [safelist_get]
+  | none =>
+    cases hb : vis.block k with
+    | none => simp
+    | some b =>
+      simp only
+      split
+      · rename_i he
+        have : b = [] := by simpa using he
+        subst this; simp
+      · exact blocklist_get v1 h1g b n
+
+theorem forwardedMap_get_spec (sw : Switches) (hl : sw.ignoreLists = false) (hb : sw.prefixedKeysBug = false)
+    (k : Kind) (r : FwdRule) (v : View) (hv : v.Good) (n : Ident) :
+    (forwardedMap sw k r v).get n = fwdSpecGet r k v.get n := by
+  have h1g : (match r.pfx with
+      | some p => View.prefixed sw.prefixedKeysBug v p
+      | none => v).Good := by
+    split
+    · rw [hb]; exact good_prefixed _ _ hv
+    · exact hv
+  have h1 : (match r.pfx with
+      | some p => View.prefixed sw.prefixedKeysBug v p
+      | none => v).get n = (match r.pfx with
+      | some p => if p.isPrefixOf n then v.get (n.drop p.length) else none
+      | none => v.get n) := by
+    split <;> simp [View.prefixed]
+  unfold forwardedMap fwdSpecGet FwdRule.allows
+  simp only [hl, Bool.false_eq_true, if_false]
+  rw [limitBy_get r.vis k _ h1g n, h1]
+
+/-! ### the whole scope of a module, without views -/
+
+theorem findSome?_filter_none {α β : Type} (f : α → Option β) (p : α → Bool) :
+    ∀ (l : List α), (∀ x ∈ l, p x = false → f x = none) → (l.filter p).findSome? f = l.findSome? f := by
+  intro l
+  induction l with
+  | nil => intro _; rfl
+  | cons a l ih =>
+    intro h
+    have ih' := ih (fun x hx => h x (by simp [hx]))
+    by_cases hp : p a = true
+    · simp [List.filter_cons, hp, List.findSome?_cons, ih']
+    · simp only [Bool.not_eq_true] at hp
+      have := h a (by simp) hp
+      simp [List.filter_cons, hp, List.findSome?_cons, ih', this]
+
+theorem memberMap_get (loc : View) (others : List View) (ho : ∀ v ∈ others, v.Good) (n : Ident) :
+    (memberMap loc others).get n = ((View.pub loc).get n).or (others.reverse.findSome? (fun v => v.get n)) := by
+  unfold memberMap
+  simp only
+  split
+  · rename_i he
+    have : others = [] := by simpa using he
+    subst this; simp
+  · simp only [View.merged, List.reverse_append, List.reverse_cons, List.reverse_nil, List.nil_append,
+      List.singleton_append, List.findSome?_cons]
+    rw [← List.filter_reverse, findSome?_filter_none]
+    · cases (View.pub loc).get n <;> simp
+    · intro v hv hne
+      exact (ho v (by simpa using hv)).emptyOK hne n
+
+theorem pub_base_get (id : Nat) (own : List Ident) (n : Ident) :
+    (View.pub (View.base id own)).get n = if !isPrivate n && own.contains n then some ⟨id, n⟩ else none := by
+  simp only [View.pub, View.base]
+  cases isPrivate n <;> simp
+
+theorem scopeView_get_spec (sw : Switches) (hl : sw.ignoreLists = false) (hb : sw.prefixedKeysBug = false)
+    (k : Kind) : ∀ (ms : List Mod) (id : Nat) (n : Ident), (scopeView sw k ms id).get n = specGet k ms id n := by
+  intro ms
+  induction ms with
+  | nil => intro id n; simp [scopeView, specGet, View.empty]
+  | cons m rest ih =>
+    intro id n
+    unfold scopeView specGet
+    split
+    · rw [memberMap_get, pub_base_get]
+      · congr 1
+        rw [← List.map_reverse, List.findSome?_map]
+        congr 1
+        funext f
+        simp only [Function.comp]
+        rw [forwardedMap_get_spec sw hl hb k f.rule _ (good_scopeView sw hb k rest f.target) n]
+        congr 1
+        funext x
+        exact ih f.target x
+      · intro v hv
+        simp only [List.mem_map] at hv
+        obtain ⟨f, _, rfl⟩ := hv
+        exact good_forwardedMap sw hb _ _ _ (good_scopeView sw hb k rest f.target)
+    · exact ih id n
 
 end Grass.Module
